@@ -218,27 +218,32 @@ func c09Families() []string {
 // renderSentence spells a tree as a sentence of the grammar (minimal or full parentheses). A leaf whose value
 // starts with $ is a placeholder.
 func renderSentence(e *model.Expr, full, top bool) string {
+	s, _ := renderS(e, full, top)
+	return s
+}
+
+// renderS returns the text and whether it is a simple-expr (comparison, negation or parenthesised group).
+func renderS(e *model.Expr, full, top bool) (string, bool) {
 	switch e.Op {
 	case "eq":
 		if strings.HasPrefix(e.Val, "$") {
-			return e.Col + " = " + e.Val
+			return e.Col + " = " + e.Val, true
 		}
-		return e.Col + ` = "` + strings.ReplaceAll(e.Val, `"`, `""`) + `"`
+		return e.Col + ` = "` + strings.ReplaceAll(e.Val, `"`, `""`) + `"`, true
 	case "not":
-		k := e.Kids[0]
-		s := renderSentence(k, full, false)
-		if (k.Op == "and" || k.Op == "or") && !strings.HasPrefix(s, "(") {
+		s, simple := renderS(e.Kids[0], full, false)
+		if !simple {
 			s = "( " + s + " )"
 		}
 		if full {
-			return "( ^ " + s + " )"
+			return "( ^ " + s + " )", true
 		}
-		return "^ " + s
+		return "^ " + s, true
 	}
 	var parts []string
 	for _, k := range e.Kids {
-		s := renderSentence(k, full, false)
-		if (k.Op == "and" || k.Op == "or") && !strings.HasPrefix(s, "(") {
+		s, simple := renderS(k, full, false)
+		if !simple {
 			s = "(" + s + ")"
 		}
 		parts = append(parts, s)
@@ -249,9 +254,9 @@ func renderSentence(e *model.Expr, full, top bool) string {
 	}
 	s := strings.Join(parts, sep)
 	if full || len(e.Kids) == 1 && !top {
-		return "( " + s + " )"
+		return "( " + s + " )", true
 	}
-	return s
+	return s, len(e.Kids) == 1
 }
 
 func c09Worker(ctx *rt.Ctx, job *rt.Job) []*rt.Violation {
